@@ -31,7 +31,8 @@ def model_cfg():
     return st.fixed_dictionaries(dict(
         seed=st.integers(0, 2 ** 31 - 1), layers=st.integers(1, 3), heads=st.sampled_from([1, 2, 4]),
         width=st.sampled_from([8, 16, 32]), ff=st.sampled_from([16, 64]), classes=st.integers(4, 9),
-        gain=st.sampled_from([1.0, 3.0, 8.0]), end_bias=st.sampled_from([-0.5, 0.1, 0.4, 1.0, 2.0]), enc_layers=st.integers(1, 2)))
+        gain=st.sampled_from([1.0, 3.0, 8.0]), end_bias=st.sampled_from([-0.5, 0.1, 0.4, 1.0, 2.0]), enc_layers=st.integers(1, 2),
+        ignore_bias=st.sampled_from([-4.0, -4.0, 0.0, 1.5])))
 
 
 def build_model(cfg, max_seq_len=64):
@@ -54,7 +55,7 @@ def build_model(cfg, max_seq_len=64):
     with torch.no_grad():
         net.dec_out_proj.weight.mul_(cfg["gain"])
         net.dec_embeder.weight.mul_(2.0)
-        net.dec_out_proj.bias[cfg["classes"] + 1] -= 4.0
+        net.dec_out_proj.bias[cfg["classes"] + 1] += cfg.get("ignore_bias", -4.0)    # models that do / do not emit the ignore symbol
         net.encoder_frontend.conv.weight.mul_(4.0)
         for layer in net.trans_decoder.layers:        # let the image matter: stronger cross-attention
             layer.multihead_attn.out_proj.weight.mul_(5.0)
